@@ -626,6 +626,15 @@ func (e *Enc) enterLoop(li *loopInfo, phiEntry map[*ssa.Phi]Term) error {
 			break
 		}
 		c := e.defineFresh(phi)
+		// a reference held in a variable at the loop header was allocated before this point
+		switch phi.Type().Underlying().(type) {
+		case *types.Pointer, *types.Map, *types.Chan, *types.Signature:
+			if c.Sort == SInt {
+				e.sc.Assert(Implies(e.curGuard, App(SBool, "<=", c, e.lookup(e.cur, "alloc", SInt))))
+			}
+		case *types.Slice:
+			e.sc.Assert(Implies(e.curGuard, App(SBool, "<=", App(SInt, "sref", c), e.lookup(e.cur, "alloc", SInt))))
+		}
 		// a phi whose incoming values are all allocations of this function is a valid cell of this
 		// activation: non-nil, allocated after entry, distinct from the other allocations
 		if allAllocEdges(phi) {
@@ -1002,6 +1011,15 @@ func isUnsigned(t types.Type) bool {
 }
 
 func (e *Enc) binop(op token.Token, a, b Term, opType types.Type, at ssa.Instruction) Term {
+	if a.Sort == SReal && e.fc != nil && e.fc.FPAbstract {
+		// abstract floats: any value including NaN/Inf; comparisons are unconstrained
+		e.abstracted["fp-abstract: float64 values in this function are unconstrained (covers NaN and infinities); comparisons on them are nondeterministic"] = true
+		switch op {
+		case token.EQL, token.NEQ, token.LSS, token.LEQ, token.GTR, token.GEQ:
+			return e.fresh("fcmp", SBool)
+		}
+		return e.fresh("fabs", SReal)
+	}
 	switch op {
 	case token.EQL:
 		return Eq(a, b)
@@ -1156,6 +1174,9 @@ func (e *Enc) convert(v Term, from, to types.Type, at ssa.Instruction) Term {
 		// exact below 2^53, rounded above
 		// exact for integers up to 2^53. By default that magnitude is an obligation (FP.exact) and the
 		// conversion is then exact; a contract may declare `fp-inexact` to get the rounded value instead.
+		if e.fc != nil && e.fc.FPAbstract {
+			return e.fresh("fabs", SReal)
+		}
 		if e.fc != nil && e.fc.FPInexact {
 			r := e.rnd(ToReal(v))
 			e.sc.AssertKeyed(r.S+" ", Implies(And(App(SBool, "<=", T("(- 9007199254740992)", SInt), v), App(SBool, "<=", v, T("9007199254740992", SInt))), Eq(r, ToReal(v))))
@@ -1167,6 +1188,12 @@ func (e *Enc) convert(v Term, from, to types.Type, at ssa.Instruction) Term {
 		}
 		return ToReal(v)
 	case fs == SReal && ts == SInt:
+		if e.fc != nil && e.fc.FPAbstract {
+			// out-of-range / NaN conversions give an implementation-defined value, never a panic
+			r := e.fresh("f2i", SInt)
+			e.sc.Assert(Implies(e.curGuard, e.tr.rangeAssumption(r, to, 0)))
+			return r
+		}
 		e.assumed["float64 to integer conversions stay within the integer range"] = true
 		if w, ok := intWitness(v); ok {
 			return w
